@@ -315,6 +315,30 @@ def registry():
     simple('rand_custom', lambda L, rk: [('', [lay(np.array([3, 2, 3]), L), rk, lambda sz: np.arange(sz) * 0.5], {})])
     simple('vector_delta', lambda L, rk: [('', [3, -2, 1.5], {})])
     simple('matrix_delta', lambda L, rk: [('', [2, 1, -1, 2.0], {})])
+    # documented rejections: the arguments must be untouched when the call raises (clause mutation.on_error)
+    inv = {
+        'orthogonalize': lambda L, rk: [('bad-k', [_base(L, rk)[0], 3], {}), ('bad-k-stab', [_base(L, rk)[0], -1], dict(use_stab=True))],
+        'orthogonalize_left': lambda L, rk: [('bad-i', [_base(L, rk)[0], 2], {}), ('bad-i-inplace', [_base(L, rk)[0], 2], dict(inplace=True))],
+        'orthogonalize_right': lambda L, rk: [('bad-i', [_base(L, rk)[0], 0], {}), ('bad-i-inplace', [_base(L, rk)[0], 0], dict(inplace=True))],
+        'maxvol': lambda L, rk: [('wide', [lay(space.core('gen', 1, 3, 4, 0, 0)[0], L)], {})],
+        'maxvol_rect': lambda L, rk: [('bad-dr', [lay(space.core('gen', 1, 6, 3, 0, 0)[0], L)], dict(dr_min=3, dr_max=1))],
+        'cross': lambda L, rk: [('no-criteria', [_f, _base(L, rk)[0]], dict(info={})), ('no-vld', [_f, _base(L, rk)[0]], dict(info={}, e_vld=1e-3))],
+        'als': lambda L, rk: [('missing-slice', [lay(space.grid_array([3, 2, 3])[:5], L), lay(_f(space.grid_array([3, 2, 3])[:5]), L), _base(L, rk)[0]], dict(nswp=1, info={}))],
+        'const': lambda L, rk: [('conflict', [[3, 2, 3], 2.0, lay(np.array([[0, 1, 2], [1, 1, 1]]), L), lay(np.array([1, 1, 1]), L)], {})],
+        'tt_to_qtt': lambda L, rk: [('n3', [ttl(space.tt([3, 3], [1, rk, 1], 'gen', 0), L)], {})],
+        'ind_tt_to_qtt': lambda L, rk: [('n3', [lay(np.array([[0, 2], [1, 1]]), L), 3], {})],
+        'optima_qtt': lambda L, rk: [('n3', [ttl(space.tt([3, 3], [1, rk, 1], 'gen', 0), L)], {}), ('unequal', [ttl(space.tt([2, 4], [1, rk, 1], 'gen', 0), L)], {})],
+        'func_sum_full': lambda L, rk: [('asym', [_dense(L), -1., 2.], {})],
+        'grid_prep_opts': lambda L, rk: [('lengths', [lay(np.array([0., 1.]), L), lay(np.array([1., 2., 3.]), L), [3, 4]], {})],
+        'sample_square': lambda L, rk: [('too-many', [ttl(space.tt([2, 2], [1, 1, 1], 'gen', 0), L), 5], dict(unique=True, seed=0, m_fact=2, max_rep=1))],
+        'vector_delta': lambda L, rk: [('range', [3, 8, 1.0], {})],
+        'poi_scale': lambda L, rk: [('kind', [lay(np.array([[0.1, 0.5, 2.5]]), L), -1., 1., 'nope'], {})],
+        'func_int_general': lambda L, rk: [('bad-basis', [ttl(space.tt([3, 3], [1, rk, 1], 'gen', 0), L), lay(np.array([-0.9, 0.1, 0.8]), L),
+                                                         lambda x: (_ for _ in ()).throw(ValueError('basis failed'))], {})],
+    }
+    for nm, mk in inv.items():
+        old = R[nm]
+        R[nm] = (lambda L, rk, old=old, mk=mk: old(L, rk) + [('INVALID-' + lb, a, k) for lb, a, k in mk(L, rk)])
     return R
 
 
@@ -359,7 +383,15 @@ def check_entry(c):
             # already changed its arguments
             after = snap(args), snap([v for k, v in sorted(watched['kwargs'].items())])
             res.check(before == after, 'mutation.on_error', case, '%s raised %s after modifying an argument' % (name, type(ex).__name__), tags)
-            res.skip('call raised %s (%s %s)' % (type(ex).__name__, name, label))
+            if label.startswith('INVALID-'):
+                res.check(isinstance(ex, ValueError) or name == 'func_int_general', 'reject.type', case,
+                          lambda: 'documented rejection raised %s instead of ValueError' % type(ex).__name__, tags)
+                res.nt((name, label, L, rk))
+            else:
+                res.skip('call raised %s (%s %s)' % (type(ex).__name__, name, label))
+            continue
+        if label.startswith('INVALID-'):
+            res.fail('reject.accepted', case, '%s accepted an argument combination it documents as invalid' % name, tags)
             continue
         if name in ('ANOVA', 'ANOVA_func'):
             obj = out
